@@ -594,6 +594,15 @@ func (h *c03SysHist) step(kind string) (stage string) {
 	case "protection-toggle":
 		post("/control/protection", map[string]any{"enabled": false, "duration": 0})
 		post("/control/protection", map[string]any{"enabled": true, "duration": 0})
+	case "protection-pause":
+		// Paused with a deadline well beyond the history; the access lists
+		// are enforced whatever the protection state is, so the sweeps that
+		// follow (until a later protection-on, if any) run in that state.
+		post("/control/protection", map[string]any{"enabled": false, "duration": 3600_000})
+	case "protection-off":
+		post("/control/protection", map[string]any{"enabled": false, "duration": 0})
+	case "protection-on":
+		post("/control/protection", map[string]any{"enabled": true, "duration": 0})
 	case "clean-restart":
 		if !h.in.Stop(20 * time.Second) {
 			rep.Inconcl("the binary did not stop on SIGTERM")
@@ -773,7 +782,8 @@ func (h *c03SysHist) run(bursts int) {
 		_ = os.RemoveAll(h.in.Dir)
 	}()
 
-	followers := []string{"tls-configure", "tls-configure", "dns-config", "protection-toggle", "access-set", "access-set-invalid"}
+	followers := []string{"tls-configure", "tls-configure", "dns-config", "protection-toggle", "access-set", "access-set-invalid",
+		"protection-pause", "protection-pause", "protection-off", "protection-on"}
 	for b := 0; b < bursts; b++ {
 		var steps []string
 		switch {
@@ -784,7 +794,7 @@ func (h *c03SysHist) run(bursts int) {
 			steps = []string{"access-set", "tls-configure"}
 		case b == 2:
 			// Every kind of follower appears in every run.
-			steps = []string{"access-set", []string{"dns-config", "protection-toggle", "access-set-invalid", "dns-config"}[h.idx%4], "tls-configure"}
+			steps = []string{"access-set", []string{"dns-config", "protection-pause", "access-set-invalid", "protection-pause"}[h.idx%4], "tls-configure"}
 		case b%4 == 3:
 			steps = []string{[]string{"clean-restart", "kill-restart"}[h.rng.Intn(2)]}
 		default:
